@@ -599,15 +599,35 @@ class Engine:
         part = (ctx.only or {}).get("case", {}).get("part", "x86_64") if ctx.only else os.environ.get("C05_PART", "")
         if ctx.only is not None:
             thorough = ctx.only.get("tier", ctx.tier) == "thorough"
+        if ctx.only is None and part == "":
+            # a normal run: the five parts side by side (core.run_parts forks one process per part)
+            from harness import core
+
+            core.run_parts(ctx, [
+                ("arm", lambda c: armrun.c05_hook(c, thorough, "arm", None)),     # arm / thumb (tla/ArmExec.tla)
+                ("mips", lambda c: mipsrun.c05_hook(c, thorough, "mips", None)),  # tla/MipsExec.tla
+                ("m68k", lambda c: m68krun.c05_hook(c, thorough, "m68k", None)),  # tla/M68kExec.tla
+                ("riscv", lambda c: self.riscv_part(c, thorough, None)),          # tla/RV32_Run.tla
+                ("x86_64", lambda c: self.x86_part(c, thorough, None)),           # host CPU + IR.tla
+            ], jobs=int(os.environ.get("VERIF_JOBS", "5")))
+            quick_exit()
+            return
         if armrun.c05_hook(ctx, thorough, part, only): return   # arm / thumb part (tla/ArmExec.tla); True: C05_PART=arm or a replay of one of its cases
         if mipsrun.c05_hook(ctx, thorough, part, only): return   # mips part (tla/MipsExec.tla); True: C05_PART=mips or a replay of one of its cases
         if m68krun.c05_hook(ctx, thorough, part, only): return   # m68k part (tla/M68kExec.tla); True: C05_PART=m68k or a replay of one of its cases
         if part in ("", "riscv"):
-            from engines import c05rv
-
-            c05rv.run_riscv(ctx, thorough, only if ctx.only is not None else None)
+            self.riscv_part(ctx, thorough, only if ctx.only is not None else None)
         if part == "riscv":
             return
+        self.x86_part(ctx, thorough, only)
+        quick_exit()
+
+    def riscv_part(self, ctx, thorough, only):
+        from engines import c05rv
+
+        c05rv.run_riscv(ctx, thorough, only)
+
+    def x86_part(self, ctx, thorough, only):
         if ctx.only is None:
             model_check(ctx)
         bad = probe_unsupported(ctx)
@@ -623,7 +643,6 @@ class Engine:
             programs = directed_programs(ctx, bad, nvec) + irgen_programs(ctx, 200 if thorough else 10, bad, nvec) + \
                 pattern_programs(ctx, 500 if thorough else 20, bad, nvec, thorough=thorough)
         run_programs(ctx, programs, "C05", prepare_ir)
-        quick_exit()
 
 
 def quick_exit():
